@@ -27,7 +27,7 @@ RULE = (
   "data cases additionally need ncon+nefc>0; distinct by hash(xml, state)."
 )
 ASSUMPTIONS = [
-  "a field is 'represented' if get_data_into assigns it; recomputed factors (qLD, qLDiagInv) are compared to 1e-5 instead of bit-exact",
+  "a field is 'represented' if get_data_into assigns it; recomputed factors (qLD, qLDiagInv) must equal the float32 image of the source or MuJoCo's factorisation of the float32 M (1e-6)",
   "documented differences not reported: opt.tolerance is clamped to >=1e-6; solver_niter is a scalar per world (MjData has one per island)",
   "unsupported catalogue = README 'MuJoCo API Compatibility' list + every MuJoCo enum value absent from mujoco_warp.types enums + "
   "the explicit checks at the top of io.put_model (dense nv>60, sleep with CG, noslip, plugins, flex internal/quadratic)",
@@ -69,7 +69,7 @@ DATA_FIELDS = (
   "efc_vel efc_aref efc_frictionloss efc_state efc_force cacc cfrc_int cfrc_ext ten_length ten_J ten_wrapadr ten_wrapnum wrap_obj wrap_xpos sensordata "
   "tree_asleep tree_awake body_awake"
 ).split()
-APPROX = {"qLD": 1e-5, "qLDiagInv": 1e-5}
+APPROX = ("qLD", "qLDiagInv")
 CONTACT_FIELDS = "dist pos frame includemargin friction solref solreffriction solimp dim geom efc_address".split()
 
 
@@ -279,12 +279,23 @@ def _run_data(case, rec):
     rec.check()
     if int(res.solver_niter[0]) != int(mjd.solver_niter[0]):
       rec.viol("roundtrip:field-differs:solver_niter", f"solver_niter[0] {res.solver_niter[0]} vs {mjd.solver_niter[0]}; {ctx}")
-    for f, tol in APPROX.items():
+    # inertia factors: either the float32 image of the source factor (pure sparse layout: copied) or MuJoCo's own
+    # factorisation of the float32 image of M (block layouts: get_data_into calls mj_factorM on the float32 M)
+    import copy as _copy
+
+    alt = _copy.copy(mjd)
+    alt.M[:] = np.asarray(mjd.M, np.float32)
+    mujoco.mj_factorM(mjm, alt)
+    for f in APPROX:
       rec.check()
-      a, r = np.asarray(getattr(res, f)), np.asarray(getattr(mjd, f))
-      scale = max(1.0, float(np.abs(r).max()) if r.size else 1.0, float(np.abs(np.asarray(mjd.M)).max()) if mjm.nv else 1.0)
-      if a.shape != r.shape or (a.size and np.abs(a - r).max() > tol * scale):
-        rec.viol(f"roundtrip:field-differs:{f}", f"MjData.{f} differs by {np.abs(a - r).max() if a.shape == r.shape else 'shape'} (scale {scale:.3g}); {ctx}")
+      a = np.asarray(getattr(res, f))
+      ok = False
+      for r in (np.asarray(getattr(mjd, f), np.float32).astype(np.float64), np.asarray(getattr(alt, f))):
+        if a.shape == r.shape and (a.size == 0 or np.abs(a - r).max() <= 1e-6 * max(1.0, float(np.abs(r).max()))):
+          ok = True
+      if not ok:
+        r = np.asarray(getattr(alt, f))
+        rec.viol(f"roundtrip:field-differs:{f}", f"MjData.{f} differs by {np.abs(a - r).max() if a.shape == r.shape else 'shape'} from both the float32 image of the source and mj_factorM(float32 M); {ctx}")
     for f in CONTACT_FIELDS:
       rec.check()
       ok, why = _f32eq(getattr(res.contact, f), getattr(mjd.contact, f))
